@@ -337,6 +337,30 @@ def symint(x=0, *a):
     return builtins.int(x, *a)
 
 
+def _ifmin(args, want_min):
+    vals = list(args[0]) if len(args) == 1 else list(args)
+    if not any(isinstance(v, SymReal) for v in vals):
+        return (builtins.min if want_min else builtins.max)(vals)
+    _hit("min/max -> If-term")
+    cur = core.lift(vals[0])
+    for v in vals[1:]:
+        t = core.lift(v)
+        cur = z3.If(cur <= t, cur, t) if want_min else z3.If(cur >= t, cur, t)
+    return SymReal(cur)
+
+
+def symmin(*args, **k):
+    if k or not active():
+        return builtins.min(*args, **k)
+    return _ifmin(args, True)
+
+
+def symmax(*args, **k):
+    if k or not active():
+        return builtins.max(*args, **k)
+    return _ifmin(args, False)
+
+
 FORSYS_MODULES = ["cell", "edge", "vertex", "virtual_edges", "frames", "fmatrix", "forsys", "general_matrix",
                   "pmatrix", "time_series", "myosin", "stress_tensor", "tessellation", "borders"]
 
@@ -351,4 +375,6 @@ def install():
             mod.__dict__["np"] = PROXY
         mod.__dict__["float"] = symfloat
         mod.__dict__["int"] = symint
+        mod.__dict__["min"] = symmin
+        mod.__dict__["max"] = symmax
     return forsys
